@@ -416,15 +416,20 @@ def run_rewrite(rng, obs):
     obs.desc = {'decorator': which, 'x': x}
     if which == 'masked':
         k = rng.randint(1, 3)
-        keys = sorted(rng.sample(range(n + k), k))
+        keys = rng.sample(range(n + k), k)          # the mask's own key order (ascending, descending, shuffled) must not matter
         mask = {i: 100.0 + i for i in keys}
-        y = mt.masked(dict(mask))(ident)(list(x))
+        form = rng.choice(['dict', 'dict', 'str'])
+        arg = dict(mask) if form == 'dict' else ', '.join('%d:%r' % (i, mask[i]) for i in keys)
+        xin = rng.choice([list, tuple])(x)
+        y = mt.masked(arg)(ident)(xin)
+        obs.desc.update(mask_key_order=keys, mask_form=form, container=type(xin).__name__)
+        obs.check(type(y) is type(xin), 'type:container type preserved', decorator='masked', observed=type(y).__name__, expected=type(xin).__name__)
         exp = list(x)
         for i in sorted(mask): exp.insert(i, mask[i])
         obs.desc['mask'] = mask
         obs.check(list(y) == exp, 'target:masked inserts exactly the addressed entries', mask=mask, x=x, y=list(y), expected=exp)
         obs.check([v for j, v in enumerate(y) if j not in mask] == x, 'frame:original entries keep their order and value', mask=mask, x=x, y=list(y))
-        obs.event('assert:idem'); obs.event('assert:type')
+        obs.event('assert:idem')
         obs.nontrivial = True
     elif which == 'partial':
         keys = rng.sample(range(n + 2), rng.randint(1, min(3, n + 2)))
